@@ -39,176 +39,16 @@ def run(ctx: Ctx, rep: Report) -> None:
     rep.rule("C08-R4", "offending binding = varbinds[error_index - 1]; its OID reaches construct()", floor=1)
     rep.rule("C08-R5", "no handler swallows ErrorResponse; lazy PDU evaluation is forced", floor=2)
     rep.assumptions += ["x690.decode returns the TLV at the given offset and the offset of the next one (C06/C20)"]
-    pd = PduDecode(ctx)
-    fn = pd.fn
-    defs = ctx.defs(fn)
-    cfg = ctx.cfg(fn)
+    from .common import PduEval
+
     err_base = ctx.u.cls("puresnmp.exc:ErrorResponse")
-    data_param = fn.params[1]
-
-    # ------------------------------------------------------------ R1
-    def scenario(status: int, index: int, length: int):
-        values = {pd.error_status: status, pd.error_index: index, pd.request_id: 7}
-
-        def atom(expr: ast.AST) -> Optional[Any]:
-            got = pd.value_of(expr, values)
-            if got is not None:
-                return got
-            if isinstance(expr, ast.Name) and expr.id == data_param:
-                return True
-            if isinstance(expr, ast.Call) and isinstance(expr.func, ast.Name) and expr.func.id == "len" and len(expr.args) == 1 and isinstance(expr.args[0], ast.Name) and expr.args[0].id != data_param:
-                return length
-            return None
-
-        return concrete_env(atom, defs.expand), atom
-
-    def construct_call_of(outcome) -> Optional[ast.Call]:
-        stmt = outcome.stmt
-        if not isinstance(stmt, ast.Raise) or stmt.exc is None:
-            return None
-        exc = stmt.exc
-        if isinstance(exc, ast.Name):
-            exc = defs.single(exc.id) or exc
-        if isinstance(exc, ast.Call) and ctx.r.call_resolves_to(fn, exc, CONSTRUCT):
-            return exc
-        return None
-
     construct_fn = ctx.fn(CONSTRUCT)
-    site = fn.site()
-    deep = rep.tier == "thorough"
-    statuses = tuple(s for s in range(-3, 24) if s != 0) + (127, 128, 255, 256, 2**31 - 1, -(2**31)) if deep else (-1, 1, 5, 19, 255)
-    for status in statuses:
-        for index in (tuple(range(-4, 9)) if deep else (-1, 0, 1, 2, 3)):
-            for length in (tuple(range(0, 7)) if deep else (0, 1, 2)):
-                env, atom = scenario(status, index, length)
-                outs = simulate(cfg, env)
-                bad = []
-                for o in outs:
-                    call = construct_call_of(o)
-                    if o.kind != "raise" or call is None:
-                        bad.append(repr(o))
-                        continue
-                    bound = bind_call_args(call, construct_fn.params, skip_self=False)
-                    sarg = bound.get("error_status")
-                    try:
-                        sval = int_eval(defs.expand(sarg), atom) if sarg is not None else None
-                    except Unevaluable:
-                        sval = None
-                    if sval != status:
-                        bad.append(f"construct() receives {norm(sarg) if sarg is not None else None} not the error-status")
-                rep.check(
-                    bool(outs) and not bad,
-                    "C08-R1",
-                    site,
-                    f"status={status} index={index} bindings={length}: raises ErrorResponse.construct(status, ..) on every path",
-                    "; ".join(bad),
-                    key=f"{fn.key}|must-raise",
-                )
-    env, _ = scenario(0, 0, 1)
-    outs = simulate(cfg, env)
-    rets = [o for o in outs if o.kind == "return"]
-    wrong = [o for o in outs if o.kind == "raise" and construct_call_of(o) is not None]
-    rep.check(bool(rets) and not wrong, "C08-R1", site, "status=0: the PDU content is returned, no ErrorResponse is raised", f"{outs}", key=f"{fn.key}|zero-status-returns")
-
-    # ------------------------------------------------------------ R3 / R4
-    idx_subs = []
-    for node in own_nodes(fn.node):
-        if isinstance(node, ast.Subscript) and not isinstance(node.slice, ast.Slice):
-            exp = defs.expand(node.slice)
-            if any(isinstance(n, ast.Name) and n.id == pd.error_index for n in ast.walk(exp)):
-                idx_subs.append(node)
-    if not idx_subs:
-        rep.info("no subscript indexed by the decoded error-index (offending OID not looked up)")
-    for sub in idx_subs:
-        snode = cfg_node_of(cfg, sub)
-        ssite = fn.site(sub)
-        if snode is None:
-            rep.undecided("C08-R3", ssite, "subscript is range checked", "not in CFG")
-            continue
-        conds = cfg.conditions_to(snode)
-        list_name = norm(sub.value)
-        in_try_indexerror = False
-        from ..engine.cfg import enclosing_tries
-
-        for tr, part in enclosing_tries(sub, fn.node):
-            if part == "body" and any(h.type is None or "IndexError" in norm(h.type) or norm(h.type) in ("Exception", "LookupError") for h in tr.handlers):
-                in_try_indexerror = True
-        failures = []
-        mapping_bad = []
-        for index in range(-3, 7):
-            for length in range(0, 5):
-                values = {pd.error_index: index, pd.error_status: 5}
-
-                def atom(expr: ast.AST, values=values, length=length) -> Optional[Any]:
-                    got = pd.value_of(expr, values)
-                    if got is not None:
-                        return got
-                    if isinstance(expr, ast.Call) and isinstance(expr.func, ast.Name) and expr.func.id == "len" and len(expr.args) == 1 and norm(expr.args[0]) == list_name:
-                        return length
-                    return None
-
-                feasible_somewhere = False
-                for path in conds:
-                    feasible = True
-                    for test, pol in path:
-                        try:
-                            val = bool(int_eval(defs.expand(test, stop=[list_name]), atom))
-                        except Unevaluable:
-                            continue  # unknown guard: may hold
-                        if val != pol:
-                            feasible = False
-                            break
-                    if feasible:
-                        feasible_somewhere = True
-                if not feasible_somewhere:
-                    continue
-                try:
-                    eff = int_eval(defs.expand(sub.slice), atom)
-                except Unevaluable:
-                    failures.append("index expression not evaluable")
-                    break
-                if eff != index - 1:
-                    mapping_bad.append((index, eff))
-                low_ok = eff >= 0
-                high_ok = eff < length or in_try_indexerror
-                if not (low_ok and high_ok):
-                    failures.append(f"error-index={index} with {length} binding(s) reaches {norm(sub)} (effective index {eff})")
-        rep.check(
-            not failures,
-            "C08-R3",
-            ssite,
-            f"{norm(sub)}: whenever the guards on the way hold, 0 <= index < len({list_name})",
-            "; ".join(failures[:4]),
-            key=f"{fn.key}|unchecked-index|{norm(sub)}",
-            witness=failures[:12],
-        )
-        rep.check(
-            not mapping_bad,
-            "C08-R4",
-            ssite,
-            "the binding selected is number error-index, counted from 1 (index expression == error_index - 1)",
-            f"(error-index, effective index) pairs that differ: {mapping_bad[:5]}",
-            key=f"{fn.key}|index-mapping|{norm(sub)}",
-        )
-    # the OID handed to construct() derives from the indexed binding's oid
-    for call in [n for n in own_nodes(fn.node) if isinstance(n, ast.Call) and ctx.r.call_resolves_to(fn, n, CONSTRUCT)]:
-        bound = bind_call_args(call, construct_fn.params, skip_self=False)
-        oid_arg = bound.get("offending_oid")
-        ok = None
-        if oid_arg is not None and idx_subs:
-            names = {n.id for n in ast.walk(oid_arg) if isinstance(n, ast.Name)}
-            ok = False
-            for name in names:
-                for val in defs.all_values(name):
-                    v = strip_casts(val)
-                    if isinstance(v, ast.Attribute) and v.attr == "oid" and any(v.value is s for s in idx_subs):
-                        ok = True
-            for n in ast.walk(oid_arg):
-                if isinstance(n, ast.Attribute) and n.attr == "oid" and any(n.value is s for s in idx_subs):
-                    ok = True
-        if not idx_subs:
-            ok = True
-        rep.check(ok, "C08-R4", fn.site(call), "the offending OID given to construct() is the .oid of the binding selected by error-index", f"argument: {norm(oid_arg) if oid_arg is not None else None}", key=f"{fn.key}|offending-oid-provenance")
+    pe = PduEval(ctx)
+    if pe.run(7, 2, 1, 2)[0] != "uneval":
+        check_error_paths_by_evaluation(ctx, rep, pe, err_base)
+    else:
+        rep.info(f"PDU.decode_raw is not followed by the evaluator ({pe.run(7, 2, 1, 2)[1]}); reading its control flow instead")
+        check_error_paths_structurally(ctx, rep)
 
     # ------------------------------------------------------------ R2
     check_table(ctx, rep, err_base, construct_fn)
@@ -464,3 +304,224 @@ def check_conversion(ctx: Ctx, rep: Report, err_base: ClassInfo) -> None:
                     key=f"{fn.key}|error-status-converted",
                 )
     rep.analysed["converting_handlers_on_incoming_path"] = examined
+
+
+def check_error_paths_by_evaluation(ctx: Ctx, rep: Report, pe, err_base: ClassInfo) -> None:
+    """
+    R1 / R3 / R4 decided by evaluating PDU.decode_raw (rules/common.PduEval) over error-status x error-index x
+    number of bindings: a non-zero status must raise the exception class documented for it (the generic class
+    carrying the raw status otherwise), naming the OID of binding error-index when that exists; it must never return
+    data and never fail with an IndexError; status 0 returns the content.
+    """
+    from ..engine.minieval import Instance
+
+    fn = pe.fn
+    site = fn.site()
+    deep = rep.tier == "thorough"
+    statuses = tuple(s for s in range(-3, 24) if s != 0) + (127, 128, 255, 256, 2**31 - 1, -(2**31)) if deep else (-1, 1, 2, 5, 18, 19, 255)
+    for status in statuses:
+        want_name = rfc.ERROR_CLASS_BY_STATUS.get(status)
+        want_cls = ctx.r.resolve_class(err_base.module, ast.Name(want_name, ast.Load())) if want_name else err_base
+        for index in (tuple(range(-4, 9)) if deep else (-1, 0, 1, 2, 3)):
+            for length in (tuple(range(0, 7)) if deep else (0, 1, 2)):
+                kind, val, (oids, _) = pe.run(7, status, index, length)
+                text = f"status={status} index={index} bindings={length}: raises {want_cls.name if want_cls else want_name}"
+                if kind == "uneval":
+                    rep.undecided("C08-R1", site, text, f"not evaluable: {val}")
+                    continue
+                ok = kind == "raise" and isinstance(val, Instance) and want_cls is not None and val.cls.key == want_cls.key
+                detail = f"{kind}: {val!r}"
+                if ok and want_name is None:
+                    cinit = ctx.r.method(val.cls, "__init__")
+                    bound = dict(zip(cinit.params[1:], val.args)) if cinit is not None else {}
+                    bound.update(val.kwargs)
+                    ok = bound.get("error_status") == status
+                rep.check(ok, "C08-R1", site, text + " (never returns data)", detail, key=f"{fn.key}|must-raise")
+                if kind == "raise" and isinstance(val, Instance):
+                    cinit = ctx.r.method(val.cls, "__init__")
+                    bound = dict(zip(cinit.params[1:], val.args)) if cinit is not None else {}
+                    bound.update(val.kwargs)
+                    got_oid = bound.get("offending_oid")
+                    if 1 <= index <= length:
+                        rep.check(got_oid is oids[index - 1], "C08-R4", site, f"status={status} index={index} bindings={length}: the offending OID is the OID of binding {index}", f"offending OID: {got_oid!r}", key=f"{fn.key}|offending-oid-provenance")
+                    else:
+                        rep.check(not any(got_oid is o for o in oids), "C08-R3", site, f"status={status} index={index} bindings={length}: an error-index that selects no binding names none of them (and does not fail with IndexError)", f"offending OID: {got_oid!r}", key=f"{fn.key}|unchecked-index")
+                elif kind == "raise":
+                    rep.violated("C08-R3", site, f"status={status} index={index} bindings={length}: the error-index is range-checked", f"raises {val!r}", key=f"{fn.key}|unchecked-index")
+    kind, val, _ = pe.run(7, 0, 0, 1)
+    rep.check(kind == "return", "C08-R1", site, "status=0: the PDU content is returned, no ErrorResponse is raised", f"{kind}: {val!r}", key=f"{fn.key}|zero-status-returns")
+
+
+def check_error_paths_structurally(ctx: Ctx, rep: Report) -> None:
+    """Fallback for decode code the evaluator cannot follow: the rules read off the CFG of PDU.decode_raw."""
+    pd = PduDecode(ctx)
+    fn = pd.fn
+    defs = ctx.defs(fn)
+    cfg = ctx.cfg(fn)
+    err_base = ctx.u.cls("puresnmp.exc:ErrorResponse")
+    data_param = fn.params[1]
+
+    # ------------------------------------------------------------ R1
+    def scenario(status: int, index: int, length: int):
+        values = {pd.error_status: status, pd.error_index: index, pd.request_id: 7}
+
+        def atom(expr: ast.AST) -> Optional[Any]:
+            got = pd.value_of(expr, values)
+            if got is not None:
+                return got
+            if isinstance(expr, ast.Name) and expr.id == data_param:
+                return True
+            if isinstance(expr, ast.Call) and isinstance(expr.func, ast.Name) and expr.func.id == "len" and len(expr.args) == 1 and isinstance(expr.args[0], ast.Name) and expr.args[0].id != data_param:
+                return length
+            return None
+
+        return concrete_env(atom, defs.expand), atom
+
+    def construct_call_of(outcome) -> Optional[ast.Call]:
+        stmt = outcome.stmt
+        if not isinstance(stmt, ast.Raise) or stmt.exc is None:
+            return None
+        exc = stmt.exc
+        if isinstance(exc, ast.Name):
+            exc = defs.single(exc.id) or exc
+        if isinstance(exc, ast.Call) and ctx.r.call_resolves_to(fn, exc, CONSTRUCT):
+            return exc
+        return None
+
+    construct_fn = ctx.fn(CONSTRUCT)
+    site = fn.site()
+    deep = rep.tier == "thorough"
+    statuses = tuple(s for s in range(-3, 24) if s != 0) + (127, 128, 255, 256, 2**31 - 1, -(2**31)) if deep else (-1, 1, 5, 19, 255)
+    for status in statuses:
+        for index in (tuple(range(-4, 9)) if deep else (-1, 0, 1, 2, 3)):
+            for length in (tuple(range(0, 7)) if deep else (0, 1, 2)):
+                env, atom = scenario(status, index, length)
+                outs = simulate(cfg, env)
+                bad = []
+                for o in outs:
+                    call = construct_call_of(o)
+                    if o.kind != "raise" or call is None:
+                        bad.append(repr(o))
+                        continue
+                    bound = bind_call_args(call, construct_fn.params, skip_self=False)
+                    sarg = bound.get("error_status")
+                    try:
+                        sval = int_eval(defs.expand(sarg), atom) if sarg is not None else None
+                    except Unevaluable:
+                        sval = None
+                    if sval != status:
+                        bad.append(f"construct() receives {norm(sarg) if sarg is not None else None} not the error-status")
+                rep.check(
+                    bool(outs) and not bad,
+                    "C08-R1",
+                    site,
+                    f"status={status} index={index} bindings={length}: raises ErrorResponse.construct(status, ..) on every path",
+                    "; ".join(bad),
+                    key=f"{fn.key}|must-raise",
+                )
+    env, _ = scenario(0, 0, 1)
+    outs = simulate(cfg, env)
+    rets = [o for o in outs if o.kind == "return"]
+    wrong = [o for o in outs if o.kind == "raise" and construct_call_of(o) is not None]
+    rep.check(bool(rets) and not wrong, "C08-R1", site, "status=0: the PDU content is returned, no ErrorResponse is raised", f"{outs}", key=f"{fn.key}|zero-status-returns")
+
+    # ------------------------------------------------------------ R3 / R4
+    idx_subs = []
+    for node in own_nodes(fn.node):
+        if isinstance(node, ast.Subscript) and not isinstance(node.slice, ast.Slice):
+            exp = defs.expand(node.slice)
+            if any(isinstance(n, ast.Name) and n.id == pd.error_index for n in ast.walk(exp)):
+                idx_subs.append(node)
+    if not idx_subs:
+        rep.info("no subscript indexed by the decoded error-index (offending OID not looked up)")
+    for sub in idx_subs:
+        snode = cfg_node_of(cfg, sub)
+        ssite = fn.site(sub)
+        if snode is None:
+            rep.undecided("C08-R3", ssite, "subscript is range checked", "not in CFG")
+            continue
+        conds = cfg.conditions_to(snode)
+        list_name = norm(sub.value)
+        in_try_indexerror = False
+        from ..engine.cfg import enclosing_tries
+
+        for tr, part in enclosing_tries(sub, fn.node):
+            if part == "body" and any(h.type is None or "IndexError" in norm(h.type) or norm(h.type) in ("Exception", "LookupError") for h in tr.handlers):
+                in_try_indexerror = True
+        failures = []
+        mapping_bad = []
+        for index in range(-3, 7):
+            for length in range(0, 5):
+                values = {pd.error_index: index, pd.error_status: 5}
+
+                def atom(expr: ast.AST, values=values, length=length) -> Optional[Any]:
+                    got = pd.value_of(expr, values)
+                    if got is not None:
+                        return got
+                    if isinstance(expr, ast.Call) and isinstance(expr.func, ast.Name) and expr.func.id == "len" and len(expr.args) == 1 and norm(expr.args[0]) == list_name:
+                        return length
+                    return None
+
+                feasible_somewhere = False
+                for path in conds:
+                    feasible = True
+                    for test, pol in path:
+                        try:
+                            val = bool(int_eval(defs.expand(test, stop=[list_name]), atom))
+                        except Unevaluable:
+                            continue  # unknown guard: may hold
+                        if val != pol:
+                            feasible = False
+                            break
+                    if feasible:
+                        feasible_somewhere = True
+                if not feasible_somewhere:
+                    continue
+                try:
+                    eff = int_eval(defs.expand(sub.slice), atom)
+                except Unevaluable:
+                    failures.append("index expression not evaluable")
+                    break
+                if eff != index - 1:
+                    mapping_bad.append((index, eff))
+                low_ok = eff >= 0
+                high_ok = eff < length or in_try_indexerror
+                if not (low_ok and high_ok):
+                    failures.append(f"error-index={index} with {length} binding(s) reaches {norm(sub)} (effective index {eff})")
+        rep.check(
+            not failures,
+            "C08-R3",
+            ssite,
+            f"{norm(sub)}: whenever the guards on the way hold, 0 <= index < len({list_name})",
+            "; ".join(failures[:4]),
+            key=f"{fn.key}|unchecked-index|{norm(sub)}",
+            witness=failures[:12],
+        )
+        rep.check(
+            not mapping_bad,
+            "C08-R4",
+            ssite,
+            "the binding selected is number error-index, counted from 1 (index expression == error_index - 1)",
+            f"(error-index, effective index) pairs that differ: {mapping_bad[:5]}",
+            key=f"{fn.key}|index-mapping|{norm(sub)}",
+        )
+    # the OID handed to construct() derives from the indexed binding's oid
+    for call in [n for n in own_nodes(fn.node) if isinstance(n, ast.Call) and ctx.r.call_resolves_to(fn, n, CONSTRUCT)]:
+        bound = bind_call_args(call, construct_fn.params, skip_self=False)
+        oid_arg = bound.get("offending_oid")
+        ok = None
+        if oid_arg is not None and idx_subs:
+            names = {n.id for n in ast.walk(oid_arg) if isinstance(n, ast.Name)}
+            ok = False
+            for name in names:
+                for val in defs.all_values(name):
+                    v = strip_casts(val)
+                    if isinstance(v, ast.Attribute) and v.attr == "oid" and any(v.value is s for s in idx_subs):
+                        ok = True
+            for n in ast.walk(oid_arg):
+                if isinstance(n, ast.Attribute) and n.attr == "oid" and any(n.value is s for s in idx_subs):
+                    ok = True
+        if not idx_subs:
+            ok = True
+        rep.check(ok, "C08-R4", fn.site(call), "the offending OID given to construct() is the .oid of the binding selected by error-index", f"argument: {norm(oid_arg) if oid_arg is not None else None}", key=f"{fn.key}|offending-oid-provenance")
+
